@@ -145,12 +145,12 @@ Proofs/ForceComplete.vos Proofs/ForceComplete.vok Proofs/ForceComplete.required_
 Props/C01.vo Props/C01.glob Props/C01.v.beautified Props/C01.required_vo: Props/C01.v Model/Term.vo Model/Unify.vo Model/Clause.vo Model/Machine.vo Proofs/Promise.vo Proofs/Trampoline.vo Proofs/FuelMono.vo Proofs/ForceComplete.vo
 Props/C01.vio: Props/C01.v Model/Term.vio Model/Unify.vio Model/Clause.vio Model/Machine.vio Proofs/Promise.vio Proofs/Trampoline.vio Proofs/FuelMono.vio Proofs/ForceComplete.vio
 Props/C01.vos Props/C01.vok Props/C01.required_vos: Props/C01.v Model/Term.vos Model/Unify.vos Model/Clause.vos Model/Machine.vos Proofs/Promise.vos Proofs/Trampoline.vos Proofs/FuelMono.vos Proofs/ForceComplete.vos
-Props/C03.vo Props/C03.glob Props/C03.v.beautified Props/C03.required_vo: Props/C03.v Model/Term.vo Model/Unify.vo Model/Clause.vo Model/Machine.vo Proofs/Promise.vo Proofs/Trampoline.vo Model/Boot.vo
-Props/C03.vio: Props/C03.v Model/Term.vio Model/Unify.vio Model/Clause.vio Model/Machine.vio Proofs/Promise.vio Proofs/Trampoline.vio Model/Boot.vio
-Props/C03.vos Props/C03.vok Props/C03.required_vos: Props/C03.v Model/Term.vos Model/Unify.vos Model/Clause.vos Model/Machine.vos Proofs/Promise.vos Proofs/Trampoline.vos Model/Boot.vos
-Props/C04.vo Props/C04.glob Props/C04.v.beautified Props/C04.required_vo: Props/C04.v Model/Term.vo Model/Unify.vo Model/Clause.vo Model/Machine.vo Proofs/Promise.vo Proofs/Trampoline.vo Model/Boot.vo
-Props/C04.vio: Props/C04.v Model/Term.vio Model/Unify.vio Model/Clause.vio Model/Machine.vio Proofs/Promise.vio Proofs/Trampoline.vio Model/Boot.vio
-Props/C04.vos Props/C04.vok Props/C04.required_vos: Props/C04.v Model/Term.vos Model/Unify.vos Model/Clause.vos Model/Machine.vos Proofs/Promise.vos Proofs/Trampoline.vos Model/Boot.vos
+Props/C03.vo Props/C03.glob Props/C03.v.beautified Props/C03.required_vo: Props/C03.v Model/Term.vo Model/Unify.vo Model/Clause.vo Model/Machine.vo Proofs/Promise.vo Proofs/Trampoline.vo Model/Boot.vo Proofs/FuelMono.vo Proofs/ForceComplete.vo
+Props/C03.vio: Props/C03.v Model/Term.vio Model/Unify.vio Model/Clause.vio Model/Machine.vio Proofs/Promise.vio Proofs/Trampoline.vio Model/Boot.vio Proofs/FuelMono.vio Proofs/ForceComplete.vio
+Props/C03.vos Props/C03.vok Props/C03.required_vos: Props/C03.v Model/Term.vos Model/Unify.vos Model/Clause.vos Model/Machine.vos Proofs/Promise.vos Proofs/Trampoline.vos Model/Boot.vos Proofs/FuelMono.vos Proofs/ForceComplete.vos
+Props/C04.vo Props/C04.glob Props/C04.v.beautified Props/C04.required_vo: Props/C04.v Model/Term.vo Model/Unify.vo Model/Clause.vo Model/Machine.vo Proofs/Promise.vo Proofs/Trampoline.vo Model/Boot.vo Proofs/FuelMono.vo Proofs/ForceComplete.vo
+Props/C04.vio: Props/C04.v Model/Term.vio Model/Unify.vio Model/Clause.vio Model/Machine.vio Proofs/Promise.vio Proofs/Trampoline.vio Model/Boot.vio Proofs/FuelMono.vio Proofs/ForceComplete.vio
+Props/C04.vos Props/C04.vok Props/C04.required_vos: Props/C04.v Model/Term.vos Model/Unify.vos Model/Clause.vos Model/Machine.vos Proofs/Promise.vos Proofs/Trampoline.vos Model/Boot.vos Proofs/FuelMono.vos Proofs/ForceComplete.vos
 Proofs/Groups.vo Proofs/Groups.glob Proofs/Groups.v.beautified Proofs/Groups.required_vo: Proofs/Groups.v Model/Groups.vo
 Proofs/Groups.vio: Proofs/Groups.v Model/Groups.vio
 Proofs/Groups.vos Proofs/Groups.vok Proofs/Groups.required_vos: Proofs/Groups.v Model/Groups.vos
